@@ -17,7 +17,7 @@ func init() {
 	register(&Check{
 		Meta: report.Meta{
 			Property: "C19",
-			Rule: "a structured finite alphabet of doubles, every member of which is tried: every x = +-m*2^e with m < 2^15 (quick) / 2^18 (thorough), e in [-12,51], |x| < 2^52; every integer k in [-1100,1100] with k+-1/2 and the doubles adjacent to each; +-0; every k/10^p (|k|<=2000, p<=4) with its neighbours; 2^j and 2^j+-1 with neighbours for j<=51; " +
+			Rule: "a structured finite alphabet of doubles, every member of which is tried: every x = +-m*2^e with m < 2^15 (quick) / 2^20 (thorough), e in [-12,51], |x| < 2^52; every integer k in [-1100,1100] with k+-1/2 and the doubles adjacent to each; +-0; every k/10^p (|k|<=2000, p<=4) with its neighbours; 2^j and 2^j+-1 with neighbours for j<=51; " +
 				"for each x the built-ins floor, ceil, inc, dec, integer, decimal, round, number(string(x)) and round_places(x,n) for n in 0..8 are evaluated by the real runner in one looping script ($x supplied through a harness storer; floor, ceil, round and integer are called a second time in the same argument list on $y = x+1.5) and captured typed by a host function; " +
 				"oracle: the inequalities of the property in exact rational arithmetic (math/big), integrality by big.Float.IsInt; round_places is granted one ulp of x plus one ulp of the result; conversions over booleans, numbers and a list of strings; " +
 				"a case is one x (all built-ins); non-trivial = x is not an integer",
@@ -153,7 +153,7 @@ var c19Names = []string{"floor", "ceil", "inc", "dec", "integer", "decimal", "ro
 func runC19(ctx *report.Ctx) {
 	values := c19Values()
 	ctx.Bound("special_numbers", len(values))
-	mbits := report.Pick(ctx, 15, 18)
+	mbits := report.Pick(ctx, 15, 20)
 	ctx.Bound("mantissa_bits", mbits)
 	st := newRecStorer()
 	st.hostWrite("x", yc.Num(0))
